@@ -8,7 +8,7 @@ LEVEL = "proof"
 EXPLANATION = ("Proof over all failure points: with the k-th allocation request inside randomx_alloc_cache / randomx_alloc_dataset / randomx_create_vm failing (for every k and every flag combination, by exception or by NULL), the call returns NULL with nothing live and no exception escaping, success leaves exactly the expected objects live, and release returns all of them; deallocCache releases each resource a (possibly partially constructed) cache holds exactly once. The VM base destructor returns the scratchpad (the pointer allocate stored, with the full ScratchpadSize it was requested with - the request side is C14's allocate obligation), and the x86 JIT compiler object maps exactly CodeSize bytes in its constructor and unmaps the same extent in its destructor. Implicit (compiler-generated) destructors of the derived VM classes and process-level growth are not decided.")
 TRUSTED = ['exception-flow model of the extraction: a may-throw stub sets rxv_exc and control leaves the try block after the statement containing the call (exact here because every assigned object is still null at that point)', 'allocation stubs with a ghost ledger stand for operator new, the JIT compiler constructor and the aligned / large-page allocators', 'deallocCache / deallocDataset stubs in the alloc harness carry the contract enforced on the real deallocCache (deallocDataset: by inspection, one line)']
 ASSUMPTIONS = []
-NOT_DECIDED = ['implicit destructors of the derived VM classes (~CompiledVm destroying its JitCompiler member, virtual dispatch of delete machine): compiler-generated, no text to put under contract', "aligned allocator internals (AlignedAllocator -> _mm_malloc / _mm_free); the page allocators' contracts are enforced on virtual_memory.c by C16 and used here in place of the bodies", 'process-level growth (heap blocks, mapped bytes) over repeated cycles']
+NOT_DECIDED = ['implicit destructors of the derived VM classes (~CompiledVm destroying its JitCompiler member, virtual dispatch of delete machine): compiler-generated, no text to put under contract', "AlignedAllocator (rx_aligned_alloc / rx_aligned_free = _mm_malloc / _mm_free intrinsics: no C text); LargePageAllocator is under contract; the page functions' contracts are enforced on virtual_memory.c by C16 and used here in place of the bodies", 'process-level growth (heap blocks, mapped bytes) over repeated cycles']
 INC = ["@suites/common"]
 ALLOC = [{"cxx": XS.RX_ALLOC, "out": "rx.c", "header": True}, "harness_alloc.c"]
 
@@ -35,6 +35,13 @@ OBLIGATIONS = [
      "expect_classes": ["assertion"], "expect_min": 5},
     {"name": "create_vm_fails_cleanly", "files": [{"cxx": XS.RX_CREATE_VM_EXC, "out": "rx.c", "header": True}, "harness_create_vm_fail.c"],
      "incdirs": INC, "defines": ['RXV_CONTRACTS_H="decls_create_vm.h"'], "entry": "h_create_vm_fail", "expect_classes": ["assertion"], "expect_min": 5, "replay": ALLOC_REPLAY},
+]
+OBLIGATIONS += [
+    {"name": n, "files": [{"cxx": XS.LP_ALLOC, "out": "al.c", "header": True}, "harness_lp_alloc.c"], "incdirs": INC,
+     "defines": ['RXV_CONTRACTS_H="contracts_lp_alloc.h"', "RXV_THROW(w)=do{g_thrown=1;return 0;}while(0)"], "entry": e, "enforce": fn,
+     "replace": ["allocLargePagesMemory", "freePagedMemory"], "expect_classes": ["postcondition"], "expect_min": 1}
+    for n, e, fn in (("large_page_allocator_maps_the_requested_size_or_throws", "h_lp_alloc", "LargePageAllocator_allocMemory"),
+                     ("large_page_allocator_unmaps_the_size_it_is_given", "h_lp_free", "LargePageAllocator_freeMemory"))
 ]
 # request side of the scratchpad pair: VmBase::allocate asks for exactly ScratchpadSize bytes (the size is a precondition of the
 # allocator stand-in) and stores the result in `scratchpad` - the pointer and size ~VmBase returns (obligation above)
